@@ -203,6 +203,13 @@ func (w *Reconciler) syncJobTasks(
 			if err != nil && !kerrors.IsNotFound(err) {
 				return rj, errors.Wrapf(err, "cannot get task %v", ref.Name)
 			}
+
+			// The task informer has not observed this task, so it may not deliver any
+			// event for it either (e.g. if the task disappears before it is ever
+			// observed). Sync again later instead of relying on one.
+			if err == nil {
+				w.enqueueAfter(rj, "task_not_yet_observed", time.Second*10)
+			}
 		}
 
 		if err == nil {
@@ -885,6 +892,12 @@ func (w *Reconciler) handleFinishFinalizer(
 		// finalize the Job without deleting it.
 		if kerrors.IsNotFound(err) {
 			task, err = taskMgr.Client().Get(ctx, taskRef.Name)
+
+			// The task informer has not observed this task, so its deletion may not
+			// trigger a sync either. Sync again later instead of relying on it.
+			if err == nil {
+				w.enqueueAfter(rj, "task_not_yet_observed", time.Second*10)
+			}
 		}
 
 		if kerrors.IsNotFound(err) {
